@@ -23,6 +23,7 @@ def run(ctx):
     range_(ctx)
     cols(ctx)
     order(ctx)
+    errstop(ctx)
 
 
 def _flag_queries(F, b):
@@ -409,3 +410,43 @@ def order(ctx):
                 ok = True
         R.require(ok, "no-permit-no-state", pm.where(), "without a concurrency permit no sync state is generated or served",
                   fail_msg="serve_sync generates/serves state even when try_acquire failed")
+
+
+def errstop(ctx):
+    """A chunk's range is what the receiver books as received.  ChunkedChanges keeps its cursor and buffer when the row source
+    fails, so pulling it again after an error yields a chunk whose range covers the failed row without carrying it: the receiver
+    would book a change it never got.  After `Some(Err(_))` nothing more of that version may be sent."""
+    F = ctx.F
+    R = ctx.rule("C05.errstop", "K2", "send_change_chunks: once the chunker reports a row error no further chunk of that version is pulled or sent")
+    b = F.get(PEER + "send_change_chunks")
+    if not R.anchor(b, "send_change_chunks", "fn send_change_chunks"):
+        return
+    chunker_errstop(R, b, r"Sender::<T>::(blocking_send|send|try_send)$", "SyncMessage")
+
+
+def chunker_errstop(R, b, send_rx, send_ty):
+    nx = [c for c in b.calls if c.name() == "next" and "ChunkedChanges" in c.self_ty]
+    if not R.anchor(nx, "chunker.next", "chunked.next()"):
+        return
+    n = nx[0]
+    sends = [c for c in b.calls if re.search(send_rx, c.f) and send_ty in c.self_ty]
+    tainted, _ = flow.taint(b, [n.dest[0]])
+    err_ts = []
+    for bb in b.live_blocks():
+        t = b.term(bb)
+        if t["t"] != "sw" or not b.can_reach(n.bb, bb):
+            continue
+        for s_ in b.blocks[bb]["s"]:
+            if s_[0] == "A" and s_[2][0] == "disc" and op_local(t["d"]) == s_[1][0]:
+                pl = s_[2][1]
+                direct = pl[0] == n.dest[0] and any(isinstance(x, list) and x[0] == "d" and x[1] == "Some" for x in pl[1:])
+                moved = len(pl) == 1 and pl[0] in tainted and b.ty(pl[0]).startswith("core::result::Result<(alloc::vec::Vec<klukai_types::change::Change>")
+                if direct or moved:
+                    m = {v: x for v, x in t["targets"]}
+                    err_ts.append(m.get(1, t["else"]))
+    if not R.anchor(err_ts, "err-arm", "the Err(_) arm of the match on the chunker's item"):
+        return
+    again = [e for e in err_ts if n.bb in b.reachable(e) or any(x.bb in b.reachable(e) for x in sends)]
+    R.require(not again, "stops-on-error", b.where(err_ts[0]), "from the Err(_) arm neither the chunker nor a send is reachable",
+              fail_msg="after the chunker reported a row error, %s can pull the chunker again / send: the next chunk claims the sequence range of the unread row "
+                       "(ChunkedChanges keeps its cursor), so the receiver books a change it never received" % cm.short_id(b.id))
